@@ -73,28 +73,31 @@ Inductive sender := SIdle | STok (t : N) | SDel (b : list ev).
 Record opst := {
   o_batch : list ev;          (* EventBatcher.batch *)
   o_tok : N;                  (* EventBatcher.batchToken *)
-  o_armed : list N;           (* tokens whose timer callback may still deliver (Stop may come too late) *)
+  o_slot : option N;          (* the batcher's timer: the token its armed callback will send; Set replaces, Stop clears *)
+  o_late : list N;            (* tokens of callbacks that have expired (Stop comes too late for them) and not yet run *)
   o_snd : sender;             (* the goroutine of newBatchingOperator *)
   o_out : list (list ev)      (* HandleEventBatch calls made so far *)
 }.
-Definition op_init : opst := {| o_batch := []; o_tok := 0%N; o_armed := []; o_snd := SIdle; o_out := [] |}.
+Definition op_init : opst := {| o_batch := []; o_tok := 0%N; o_slot := None; o_late := []; o_snd := SIdle; o_out := [] |}.
 
 (* EventBatcher.Add: the timer is set when a new batch starts and maxDelay > 0 *)
 Definition b_add (delay : bool) (o : opst) (e : ev) : opst :=
   {| o_batch := o_batch o ++ [e]; o_tok := o_tok o;
-     o_armed := (match o_batch o with [] => if delay then o_armed o ++ [o_tok o] else o_armed o | _ => o_armed o end);
+     o_slot := (match o_batch o with [] => if delay then Some (o_tok o) else o_slot o | _ => o_slot o end);
+     o_late := o_late o;
      o_snd := o_snd o; o_out := o_out o |}.
 (* EventBatcher.Flush(CurrentBatch) *)
 Definition b_flush (o : opst) : opst * list ev :=
   match o_batch o with
   | [] => (o, [])
-  | b => ({| o_batch := []; o_tok := N.succ (o_tok o); o_armed := o_armed o; o_snd := o_snd o; o_out := o_out o |}, b)
+  | b => ({| o_batch := []; o_tok := N.succ (o_tok o); o_slot := None (* timer.Stop() *); o_late := o_late o;
+             o_snd := o_snd o; o_out := o_out o |}, b)
   end.
 (* EventBatcher.Flush(token) *)
 Definition b_flush_tok (o : opst) (t : N) : opst * list ev :=
   if N.eqb (o_tok o) t then b_flush o else (o, []).
 Definition set_snd (o : opst) (s : sender) : opst :=
-  {| o_batch := o_batch o; o_tok := o_tok o; o_armed := o_armed o; o_snd := s; o_out := o_out o |}.
+  {| o_batch := o_batch o; o_tok := o_tok o; o_slot := o_slot o; o_late := o_late o; o_snd := s; o_out := o_out o |}.
 
 Fixpoint remove1 (t : N) (l : list N) : option (list N) :=
   match l with
@@ -138,7 +141,8 @@ Section Pipe.
   | ARead                       (* the read loop handles the next item *)
   | ARInt (a : RA R)            (* an internal step of the reorder stage *)
   | AJoin                       (* the joiner goroutine makes its next step *)
-  | ATimer (i : nat) (t : N)    (* the sender of operator i receives time-out token t *)
+  | AExpire (i : nat)           (* the timer of operator i's batcher expires: its callback can no longer be stopped *)
+  | ATimer (i : nat) (t : N)    (* ... runs, and the sender of operator i receives its token t (possibly much later) *)
   | ASndFlush (i : nat)         (* ... and calls Flush(t) *)
   | ASndRecv (i : nat)          (* the sender of operator i receives the full batch handed off by the joiner *)
   | ASndDone (i : nat).         (* HandleEventBatch is called (and returns) *)
@@ -206,12 +210,21 @@ Section Pipe.
         | None => None
         end
     | AJoin => j_step s
+    | AExpire i =>
+        let o := s_ops s i in
+        match o_slot o with
+        | Some t =>
+            Some (set_ops s (s_pc s)
+                    (upd (s_ops s) i {| o_batch := o_batch o; o_tok := o_tok o; o_slot := None; o_late := o_late o ++ [t];
+                                        o_snd := o_snd o; o_out := o_out o |}))
+        | None => None
+        end
     | ATimer i t =>
         let o := s_ops s i in
-        match o_snd o, remove1 t (o_armed o) with
+        match o_snd o, remove1 t (o_late o) with
         | SIdle, Some ar =>
             Some (set_ops s (s_pc s)
-                    (upd (s_ops s) i {| o_batch := o_batch o; o_tok := o_tok o; o_armed := ar; o_snd := STok t; o_out := o_out o |}))
+                    (upd (s_ops s) i {| o_batch := o_batch o; o_tok := o_tok o; o_slot := o_slot o; o_late := ar; o_snd := STok t; o_out := o_out o |}))
         | _, _ => None
         end
     | ASndFlush i =>
@@ -231,7 +244,7 @@ Section Pipe.
         match o_snd o with
         | SDel b =>
             Some (set_ops s (s_pc s)
-                    (upd (s_ops s) i {| o_batch := o_batch o; o_tok := o_tok o; o_armed := o_armed o; o_snd := SIdle; o_out := o_out o ++ [b] |}))
+                    (upd (s_ops s) i {| o_batch := o_batch o; o_tok := o_tok o; o_slot := o_slot o; o_late := o_late o; o_snd := SIdle; o_out := o_out o ++ [b] |}))
         | _ => None
         end
     end.
@@ -313,7 +326,7 @@ Section Canon.
     match l with [] => None | a :: l' => match f a with Some b => Some b | None => first_some f l' end end.
 
   Definition timer_acts (s : stT) : list (action R) :=
-    flat_map (fun i => map (fun t => ATimer R i t) (o_armed (s_ops R s i))) (seq 0 nops).
+    flat_map (fun i => AExpire R i :: map (fun t => ATimer R i t) (o_late (s_ops R s i))) (seq 0 nops).
   Definition op_acts (mk : nat -> action R) : list (action R) := map mk (seq 0 nops).
 
   Definition candidates (s : stT) : list (action R) :=
